@@ -368,7 +368,7 @@ func (c *nxCluster) Canon() []byte {
 			b.U(h.cci, ps.stepCCI, ps.applyCCI, ps.commitCCI, p.cci, uint64(len(ps.stepNodes)), uint64(len(ps.applyN)), uint64(len(ps.commitN)))
 			b.U(uint64(len(p.nodes)), uint64(len(p.busy)), uint64(len(p.saving)), uint64(len(p.recovering)), uint64(len(p.streaming)), uint64(len(p.pending)))
 			for _, j := range p.pending {
-				b.U(j.shardID, j.instanceID, j.task.Index).Bool(j.task.Save).Bool(j.task.Stream).Bool(j.task.Recover).Bool(j.task.Initial)
+				b.U(j.shardID, j.node.instanceID, j.task.Index).Bool(j.task.Save).Bool(j.task.Stream).Bool(j.task.Recover).Bool(j.task.Initial)
 			}
 		}
 		if h.db == nil {
